@@ -222,6 +222,7 @@ def install(lib):
     cw.guarantee = lambda st: acc_clauses(st) + act_clauses(st)
     cw.nshards = 6
     cw.slot_of = "req_token"
+    cw.unit_param = "item"
     cw.loops = {0: CancelLoop(lambda st: st.loc["chosen_put_event"].t), 1: ScanLoop("out_edges")}
     C["Combiner"]["worker"] = cw
 
@@ -352,6 +353,12 @@ def install_behaviours(lib):
             drawn = z3.Or(d.tag == V.T_GEN, d.tag == V.T_FUNC)
             cnt = z3.Sum([z3.If(z3.And(c_[3], c_[1] == d.oid), 1, 0) for c_ in cs]) if cs else z3.IntVal(0)
             out.append(("processing-delay-drawn-exactly-once", z3.Implies(drawn, cnt == 1)))
+            # C08 ("starts processing at the instant it is pulled ... the delay being drawn once per item"): the delay of
+            # a unit of work is drawn once that unit has been pulled, not while the node still waits for it (a user
+            # source may depend on the time or on what it was asked before)
+            late = [c_ for c_ in cs if len(c_) > 4 and c_[4] == 0]
+            out.append(("processing-delay-drawn-for-the-unit-just-pulled", z3.And(*[
+                z3.Not(z3.And(c_[3], c_[1] == d.oid)) for c_ in late]) if late else z3.BoolVal(True), ("C08",)))
 
     # ---------------------------------------------------------------- Splitter.behaviour
     sb_fields = ACC + ("in_edge_events", "chosen_event", "pallet_in_process", "item_in_process", "stats.processing_delay",
